@@ -96,6 +96,10 @@ func corpusFiles() []gram.Named2 {
 		sp.Rules = append(sp.Rules, gram.Rule{L: fmt.Sprintf("N%d", n), R: nil})
 		out = append(out, gram.Named2{Name: fmt.Sprintf("exponential-automaton-%d", n), Text: sp.Render(), NoEdits: true})
 	}
+	// a union with two members; nonterminals without %type whose unit rules lead to symbols of different tags
+	out = append(out, gram.Named2{Name: "untyped-nonterminals-over-two-tags", Text: "%{\npackage p\n%}\n%union {\n\tnum int\n\tstr string\n}\n%token <num> NUM\n%token <str> STR\n%type <num> list\n%start list\n%%\n" +
+		"list : item { $$ = 1 }\n  | list item { $$ = $1 + 1 }\n  ;\nitem : value\n  | a\n  ;\nvalue : NUM\n  | STR\n  ;\na : b\n  | c\n  ;\nb : NUM ;\nc : STR ;\n%%\n" +
+		"func GetToken(input string, valTy *ValType, pos *int) int { return -1 }\n"})
 	for _, n := range gram.Families() {
 		out = append(out, gram.Named2{Name: "family:" + n.Name, Text: n.Spec.Render()})
 		if n.Name == "slr-expr" || n.Name == "ambig-expr-prec" || n.Name == "nullable-chain" {
